@@ -57,6 +57,9 @@ func (g *G) genContacts() {
 			Created: []string{"2018-06-20T11:40:30.123456789Z", "2019-03-05T23:59:59.999999999Z", "2000-01-01T00:00:00Z", "2020-02-29T12:00:00+05:45"}[t.Pick("ccreated", 4)],
 			Fields:  map[string]string{},
 		}
+		if t.Chance("noid", 1, 6) {
+			c.ID = 0 // a contact that was never saved (id is omitted from its JSON)
+		}
 		c.Name = []string{"Ann Lee", "", "Bob", "José 😀 Ñandú", strings.Repeat("Long Name ", 30)}[t.Weighted("cname", 5, 2, 2, 1, 1)]
 		c.Language = []string{"eng", "", "spa", "fra", "kin", "xxx"}[t.Weighted("clang", 4, 2, 2, 1, 1, 1)]
 		c.Timezone = []string{"", "America/Guayaquil", "Africa/Kigali", "Pacific/Auckland"}[t.Weighted("ctz", 4, 2, 1, 1)]
@@ -108,7 +111,10 @@ func (g *G) genContacts() {
 
 // ContactJSON renders the stored form of a contact for a secret set.
 func (s *Scenario) ContactJSON(c *ContactSpec, set int) J {
-	j := J{"uuid": c.UUID, "id": c.ID, "created_on": c.Created, "status": c.Status}
+	j := J{"uuid": c.UUID, "created_on": c.Created, "status": c.Status}
+	if c.ID != 0 {
+		j["id"] = c.ID
+	}
 	if c.Name != "" {
 		j["name"] = c.Name
 	}
